@@ -348,4 +348,74 @@ def runJar (j : Jar) : List CookieArgs → Jar × List (Option Err)
     let rr := runJar r.1 rest
     (rr.1, r.2 :: rr.2)
 
+/-! ### the rest of a handler run: `clear()`, and the ways a handler ends
+
+`_new_cookie` lives beside `_headers`: `RequestHandler.clear()` — called by the application or by `send_error()`
+before every error page, hence for `raise HTTPError(...)` and for any uncaught exception — resets the headers, the
+write buffer and the status, and does not touch the jar.  Whatever way the handler ends, the one `flush` that
+writes the header block runs the cookie loop over the jar as the calls left it. -/
+
+/-- the response state the cookie path can see: status code and the outgoing jar -/
+structure HState where
+  status : Nat := 200
+  jar : Jar := []
+  deriving Repr, Inhabited
+
+inductive HOp where
+  | cookie (a : CookieArgs)      -- set_cookie / clear_cookie / set_signed_cookie
+  | clear                        -- RequestHandler.clear()
+  deriving Inhabited
+
+def hstep (s : HState) : HOp → HState × Option Err
+  | .cookie a => let r := setCookie s.jar a; ({ s with jar := r.1 }, r.2)
+  | .clear => ({ s with status := 200 }, none)
+
+def hrun (s : HState) : List HOp → HState × List (Option Err)
+  | [] => (s, [])
+  | o :: rest =>
+    let r := hstep s o
+    let rr := hrun r.1 rest
+    (rr.1, r.2 :: rr.2)
+
+/-- how the handler method ends -/
+inductive Ending where
+  | finish                       -- `self.finish()`
+  | finishChunk                  -- `self.finish("body")`
+  | autoFinish                   -- the method returns; `_execute` calls `finish()`
+  | raiseFinish                  -- `raise Finish()`: `_handle_request_exception` calls `finish()`
+  | sendError (status : Nat)     -- `self.send_error(status)`
+  | raiseHTTP (status : Nat)     -- `raise HTTPError(status)` → `send_error(status, exc_info=…)`
+  | missingArg                   -- `self.get_argument("absent")` → `MissingArgumentError` = `HTTPError(400)`
+  | raiseOther                   -- any other exception → `send_error(500, exc_info=…)`
+  | redirect (permanent : Bool)  -- `self.redirect(url, permanent)` → `set_status`, `Location`, `finish()`
+  deriving Repr, Inhabited
+
+/-- `send_error(code)` before headers were written: `clear()`, `set_status(code)`, then `write_error` → `finish` -/
+def sendError (s : HState) (code : Nat) : HState := { (hstep s .clear).1 with status := code }
+
+def endState (s : HState) : Ending → HState
+  | .finish | .finishChunk | .autoFinish | .raiseFinish => s
+  | .sendError c | .raiseHTTP c => sendError s c
+  | .missingArg => sendError s 400
+  | .raiseOther => sendError s 500
+  | .redirect p => { s with status := if p then 301 else 302 }
+
+/-- the first `finish()` of the response: status code and `Set-Cookie` values written, or the error the cookie
+loop of `flush` raised (then no header block is ever written: `_headers_written` is already set) -/
+def respond (s : HState) (e : Ending) : Except Err (Nat × List Str) :=
+  match flushCookies (endState s e).jar with
+  | .ok l => .ok ((endState s e).status, l)
+  | .error err => .error err
+
+/-- a whole handler: per-call outcomes, then the response -/
+def serveHandler (ops : List HOp) (e : Ending) : List (Option Err) × Except Err (Nat × List Str) :=
+  let r := hrun {} ops
+  (r.2, respond r.1 e)
+
+/-- the `set_cookie` calls of a handler, in order -/
+def cookieCalls : List HOp → List CookieArgs
+  | [] => []
+  | .cookie a :: rest => a :: cookieCalls rest
+  | .clear :: rest => cookieCalls rest
+
 end TornadoModel.C25
